@@ -443,7 +443,7 @@ HISTORY_MONITORS = {
     'C06': [M2.mon_c06],
     'C07': [M2.mon_c07],
     'C08': [M2.mon_c08],
-    'C09': [M2.mon_c09, M2.mon_c09_probes],
+    'C09': [M2.mon_c09, M2.mon_c09_probes, M2.mon_c09_withdraw],
     'C13': [M2.mon_c13],
     'C14': [M2.mon_c14],
     'C15': [M2.mon_c15],
